@@ -122,6 +122,24 @@ CHECKS = {
         note=TRUST + "std's lower-casing table is parsed from the nightly rust-src (stable ships no source); regex-syntax's folding table is the evaluated constant of the locked version.",
         technique="static analysis: constant propagation, control dependence, exact comparison of two case-mapping tables",
     ),
+    "C02": dict(
+        category="other",
+        text="Printer clauses only (each necessary: breaking one yields ^a|b$-style over-matching for some input): precedence table order, group iff "
+             "lower precedence and not a single code point with the right operands, outer group iff alternation - decided on all abstract paths. Whether the "
+             "minimiser, union() factoring and remove_common_substring preserve the language is NOT decided.",
+        design_ref="DESIGN.md §4 C02",
+        note=TRUST + "The algorithmic core of exactness is out of reach of this family; see DESIGN.md §0.",
+        technique="static analysis: path-splitting constant propagation over the printers",
+    ),
+    "C15": dict(
+        category="other",
+        text="Component-level decision: for all 18 component variants and flag valuations the coloured rendering minus SGR sequences equals the plain rendering "
+             "(string templates); the SGR syntax written agrees with the pattern that strips it; the indenter decides on the colour-stripped line; every colour "
+             "argument comes from the colour setting only.",
+        design_ref="DESIGN.md §4 C15",
+        note=TRUST + "Whole-output equality additionally relies on the component decomposition of the printers (PLB-1) and is not executed.",
+        technique="static analysis: sibling-implementation agreement by constant propagation with string templates; provenance of guard predicates; value flow",
+    ),
 }
 
 NOT_APPLICABLE = {
